@@ -42,6 +42,10 @@ SHIM_CUDA = r"""
 #define __device__
 #define __host__
 #define XO_HOST_DEVICE_STUB 1
+/* the text is compiled as NVRTC compiles device code: the architecture macro is defined and the
+   device intrinsics that generated code may use exist (read-only-cache load = plain load) */
+#define __CUDA_ARCH__ 800
+template <typename T> static inline T __ldg(const T* p){ return *p; }
 struct __xo_uint3 { unsigned int x, y, z; };
 static __xo_uint3 blockIdx, blockDim, threadIdx, gridDim;
 extern "C" void __xo_set_idx(unsigned int b, unsigned int bd, unsigned int t, unsigned int gd){
